@@ -9,13 +9,16 @@ open SC
 /-- RNG used by the driver: scripted list, deterministic function, or SplitMix counter -/
 inductive RS
   | script (l : List Nat)
+  | over               -- the script ran out: the model wants more draws than the implementation made
   | det
   | sm (seed : Nat)
 
 def uRng : Rng RS :=
   { draw := fun s cap bits =>
       match s with
+      | .script [] => (11400714819323198485, .over)   -- keeps growth steps large: no cubic rebuild chains on a trace that has already diverged
       | .script l => let (v, l') := scriptRng.draw l cap bits; (v, .script l')
+      | .over => (11400714819323198485, .over)
       | .det => ((detRng.draw () cap bits).1, .det)
       | .sm seed => let (v, s') := splitmixRng.draw seed cap bits; (v, .sm s') }
 
@@ -95,6 +98,7 @@ def St.rs (s : St) (draws : List Nat) : RS :=
 def St.after (s : St) (d : RS) : St × Bool :=
   match d with
   | .script l => (s, l.isEmpty)
+  | .over => (s, false)
   | .det => (s, true)
   | .sm seed => ({ s with seed := seed }, true)
 
@@ -115,7 +119,7 @@ def St.runSet (s : St) (name : String) (dst : Nat) (act : M RS Rp) (draws : List
     let (s, okd) := s.after d
     let before := layoutTag s.c (s.get dst)
     let s := (s.bump s!"op:{name}").bump s!"tr:{name}:{before}>{layoutTag s.c r}"
-    if !okd then s.fail s!"{name}: model consumed fewer draws than the implementation"
+    if !okd then s.fail s!"{name}: model consumed a different number of draws than the implementation"
     else if !(irMatches s.c.codec (parseIR irt) r) then
       s.fail s!"{name}: representation differs; before {src} model {showR s.c.codec r} impl {irt.take 50}"
     else if capacity r ≤ 160 && len r ≤ 300 && !(wfB s.c r && absB s.c r) then
@@ -134,7 +138,7 @@ def St.runRet (s : St) (name : String) (dst : Nat) (act : M RS (Rp × Bool)) (re
     let before := layoutTag s.c (s.get dst)
     let s := (s.bump s!"op:{name}").bump s!"tr:{name}:{before}>{layoutTag s.c r}"
     if ret == "P" then s.fail s!"{name}: implementation panicked, model returned {b} on {src}"
-    else if !okd then s.fail s!"{name}: model consumed fewer draws than the implementation ({src})"
+    else if !okd then s.fail s!"{name}: model consumed a different number of draws than the implementation ({src})"
     else if (ret == "1") != b then s.fail s!"{name}: return value: model {b} impl {ret} on {src}"
     else if !(irMatches s.c.codec (parseIR irt) r) then
       s.fail s!"{name}: representation differs; before {src} model {showR s.c.codec r} impl {irt.take 50}"
@@ -249,7 +253,7 @@ def step (s : St) (line : String) : IO St := do
       let groups := (ir.foldl (fun (acc : List (List String)) t =>
         if t == "|" then [] :: acc else match acc with | g :: r => (g ++ [t]) :: r | [] => [[t]]) [[]]).reverse
       let groups := groups.filter (fun g => !g.isEmpty)
-      if !okd then s.fail s!"flt: model consumed fewer draws than the implementation ({showR c.codec r0})"
+      if !okd then s.fail s!"flt: model consumed a different number of draws than the implementation ({showR c.codec r0})"
       else if tr.length != N n then
         s.fail s!"flt: insert({v}) on {showR c.codec r0}: model requests {tr.length} zeroed blocks, implementation {n}"
       else if groups.length != tr.length then s.fail "flt: malformed line"
@@ -270,7 +274,7 @@ def step (s : St) (line : String) : IO St := do
       let groups := (ir.foldl (fun (acc : List (List String)) t =>
         if t == "|" then [] :: acc else match acc with | g :: r => (g ++ [t]) :: r | [] => [[t]]) [[]]).reverse
       let groups := groups.filter (fun g => !g.isEmpty)
-      if !okd then s.fail s!"flx: model consumed fewer draws than the implementation ({showR c.codec r0})"
+      if !okd then s.fail s!"flx: model consumed a different number of draws than the implementation ({showR c.codec r0})"
       else if tr.length != N n then
         s.fail s!"flx: extend({xs}) on {showR c.codec r0}: model requests {tr.length} zeroed blocks, implementation {n}"
       else if groups.length != tr.length then s.fail "flx: malformed line"
